@@ -132,12 +132,15 @@ def run(ck):
             Q[:, 0] = -Q[:, 0]
         return Q
 
-    def build(energies, dipoles, widths, couplings):
+    def build(energies, dipoles, widths, couplings, dephs=None):
         mols = []
         with qr.energy_units("1/cm"):
-            for en, dd, ww in zip(energies, dipoles, widths):
+            for k_, (en, dd, ww) in enumerate(zip(energies, dipoles, widths)):
                 m = qr.Molecule([0.0, en])
-                m.set_transition_width((0, 1), ww)
+                if dephs is None:
+                    m.set_transition_width((0, 1), ww)
+                else:
+                    m.set_transition_dephasing((0, 1), dephs[k_])      # Lorentzian line shapes use the dephasing rates
                 m.set_dipole(0, 1, list(dd))
                 mols.append(m)
         agg = qr.Aggregate(molecules=mols)
@@ -173,11 +176,11 @@ def run(ck):
             eUt.calculate(show_progress=False)
         return eUt
 
-    def make_calc():
+    def make_calc(shape="Gaussian"):
         calc = MockTwoDResponseCalculator(t1_axis, t2_axis, t3_axis)
         with qr.energy_units("1/cm"):
             with quiet():
-                calc.bootstrap(rwa=12100.0, shape="Gaussian")
+                calc.bootstrap(rwa=12100.0, shape=shape)
         return calc
 
     def response(agg, eUt, pol, t2, calc=None, lab=None, pways=None):
@@ -290,6 +293,22 @@ def run(ck):
                     if dev > 1e-9:
                         ck.fail("additivity", "response of an aggregate of uncoupled molecules differs from the sum of the responses of the "
                                 "molecules (excited-state absorption does not cancel the cross peaks)", dict(sysinp, signal=str(st)), dev)
+            if not coupled:
+                # the same with Lorentzian line shapes (dephasing rates instead of Gaussian widths), equal and unequal rates
+                for tag, dph in (("equal-rates", [0.01] * n), ("unequal-rates", [0.01 / (1 + 2 * k_) for k_ in range(n)])):
+                    agg_l, agg1_l = build(energies, dipoles, widths, {}, dephs=dph)
+                    bl, _ = response(agg_l, evolution(agg1_l, False), pol, t2, calc=make_calc("Lorentzian"))
+                    pl = None
+                    for k in range(n):
+                        a_k, a1_k = build([energies[k]], [dipoles[k]], [widths[k]], {}, dephs=[dph[k]])
+                        r, _ = response(a_k, evolution(a1_k, False), pol, t2, calc=make_calc("Lorentzian"))
+                        pl = r if pl is None else {st: pl[st] + r[st] for st in pl}
+                    dev = max(float(np.abs(bl[st] - pl[st]).max()) for st in bl) / (float(np.abs(pl[signal_TOTL]).max()) or 1.0)
+                    ck.resid("uncoupled aggregate vs sum of molecules, Lorentzian shapes (%s)" % tag, dev)
+                    ck.case(("lorentz", s, tag), nontrivial=True, kind="additivity-lorentzian", rates=tag)
+                    if dev > 1e-9:
+                        ck.fail("additivity:lorentzian:%s" % tag, "with Lorentzian line shapes the response of uncoupled molecules differs from the "
+                                "sum of the responses of the molecules", dict(sysinp, dephasing_rates=dph), dev)
         except Exception as e:
             ck.fail("raises:variant", "calculation of a transformed system raised %r" % (e,), sysinp)
         # ---- polarisation scan on one lab and one calculator --------------------------------------------------------------------------
